@@ -408,6 +408,8 @@ func init() {
 			recvs := []string{
 				`""`, `"a"`, `"héllo"`, `"中é"`, `"  pad  "`, `"12"`, `"-5"`, `"a,b"`, "s", "es", "bad1", "bad2", "bad3", "bad4", "bad5", "\"\xff\"", "\"\xe2\x82\"", "\"z\xc3\"",
 				"[]", "[1, 2, 3]", `["a", "b"]`, "[[1], [2]]", "[{a: 1}]", "arr", "ea", "na", "mix", "rows",
+				// values that only built-ins produce: empty arrays cut out of full ones, strings cut inside a character's escape
+				"[1, 2].slice(2)", "[1, 2].slice(1, 1)", "arr.slice(3)", "arr.slice(9).reverse()", `"".split("")`, `"a,b".split(",").slice(2)`, "[1].slice(1).shuffle()", `"<b>".truncate(3, "")`, `"&".at(1)`,
 				"0", "7", "neg", "big", "low", "(0 - 1)", "1.5", "fz", "fneg", "(0.0 - 2.5)", "1000000.5", "nan", "inf", "ninf", "tiny", "huge", "(0.0 / 0.0)", "(1.0 / 0.0)", "true", "false", "t",
 				"nil", "n", "obj", "{}", "row", "nilp",
 			}
@@ -543,6 +545,28 @@ func init() {
 					if got.Err == nil || !ok || line != k+1 {
 						c.Violation("fault-line", fmt.Sprintf("the fault on line %d gave %s", k+1, got.Describe()), map[string]any{"source": src})
 					}
+				}})
+			// a value that is nil (the literal, a nil pointer, a missing index, rand() of an empty array) in every
+			// place of a template tree: the render returns output or an error value
+			nilExprs := []string{"nil", "n", "nilp", "rowp.ptr", "[1][5]", "ea.rand()", "na.rand()", "false.then(1)", "nm.x"}
+			secs = append(secs, core.Section{Name: "nil-values-in-places", Exhaustive: true, N: len(nilExprs) * len(faultPlaces),
+				Run: func(c *core.Ctx, i int) {
+					f, pl := nilExprs[i%len(nilExprs)], faultPlaces[i/len(nilExprs)]
+					files := map[string]string{
+						"layouts/main.tw":    "<html>@reserve(\"title\")|@reserve(\"body\")</html>",
+						"layouts/faulty.tw":  "<html>{{ " + f + " }}@reserve(\"body\")</html>",
+						"components/box.tw":  "<box>{{ used }}@if(false){{ dormant }}@end|@slot|@slot(\"foot\")</box>",
+						"components/bad.tw":  "<bad>{{ " + f + " }}</bad>",
+						"components/wrap.tw": "<wrap>@component(\"~box\", {used: 1, dormant: " + f + "})</wrap>",
+						"page.tw":            strings.ReplaceAll(pl.page, "F", f),
+					}
+					tpl, err := loadTree(c, "c09nil", files, ".tw")
+					c.Nontrivial("nil|" + pl.name + "|" + f)
+					if err != nil || tpl == nil {
+						return // (whether nil is accepted in a place is not this section's concern)
+					}
+					got, _ := renderPage(c, tpl, "page", data)
+					checkOutcome(c, got, files["page.tw"], true)
 				}})
 			// one call site evaluated in several passes with receivers of changing kinds, for every built-in name
 			mixedRecvs := []string{`"abc"`, "[1, 2]", "7", "2.5", "true", "nil", "{a: 1}", "nilp", "row"}
